@@ -12,6 +12,9 @@
                     bucket operation k / operation k fails once; Exists calls count;
                     k = number of operations: death before the meta file is written)
      eligible c i   non-empty block of level 1, or any level with upload-compacted
+                    (a compacted block that overlaps a block already in the bucket, or a bucket
+                    that holds a partial upload, makes such a Sync return an error: the
+                    overlap check of lazyOverlapChecker is part of the model)
      published U b id   meta.json of id is in b with the block's file list and every
                     listed file is in b with its size
      good U st      the bucket satisfies the block invariant (C28) and every block
@@ -76,7 +79,7 @@ Print Assumptions C35_model_run_is_accepted.
 Definition ex_U : univ :=
   [(0%N, mkblk [(1%N, 20%Z); (2%N, 16%Z)] 35%Z 0%N); (1%N, mkblk [(1%N, 5%Z)] 7%Z 0%N); (2%N, mkblk [(1%N, 1%Z)] 2%Z 0%N)].
 Definition ex_L : locals :=
-  [(0%N, mklinfo true 1 2000); (1%N, mklinfo true 2 1000); (2%N, mklinfo false 1 0)].
+  [(0%N, mklinfo true 1 2000 3000); (1%N, mklinfo true 2 1000 2000); (2%N, mklinfo false 1 0 1000)].
 Definition ex_cs : list cfg :=
   [mkcfg [0; 1; 2]%N true true (Some 1%N) (CrashAt 2) [];
    mkcfg [0; 1; 2]%N true true (Some 1%N) (FailAt 2) [7%N];
@@ -91,7 +94,7 @@ Example C35_nonvacuous :
        /\ snd st = Some [0%N] /\ length (fst st) = 7%nat
        /\ sync ex_U ex_L ex_last (snd st) (fst st) = Some res
        /\ r_ret res = true /\ r_meta res = Some [1; 0]%N /\ r_ops res = []
-       /\ eligible ex_last (mklinfo true 2 1000) = true.
+       /\ eligible ex_last (mklinfo true 2 1000 2000) = true.
 Proof.
   split; [vm_compute; reflexivity|]. split; [vm_compute; reflexivity|].
   eexists. eexists. split; [vm_compute; reflexivity|]. vm_compute. repeat split; reflexivity.
